@@ -713,8 +713,10 @@ def run_miri(run, lines, limit):
             found += 1
             start = start + last + 1
             continue
-        # Miri itself could not be run (toolchain missing, build error of the crate under test): an obligation that cannot be checked
-        run.broken_obligations.append("Miri run of the parser failed: " + (r.stderr.strip().split("\n") or ["?"])[-1][:200])
+        # Miri itself could not be run (nightly toolchain missing, …): the search is skipped and the evidence says so — never an alarm;
+        # a crate that does not compile is reported by the ordinary harness build
+        run.extra["miri_error"] = (r.stderr.strip().split("\n") or ["?"])[-1][:200]
+        run.say("[miri] could not run: " + run.extra["miri_error"])
         break
     run.extra["miri_literals"] = len(lits)
     run.extra["miri_ub_found"] = found
